@@ -19,6 +19,7 @@ import (
 	"github.com/algorand/go-algorand/config"
 	"github.com/algorand/go-algorand/crypto"
 	"github.com/algorand/go-algorand/data/basics"
+	"github.com/algorand/go-algorand/data/committee"
 	"github.com/algorand/go-algorand/protocol"
 	"pgregory.net/rapid"
 )
@@ -195,6 +196,9 @@ func TestVerif_C03_Certificates(t *testing.T) {
 		vk.Add("with_equivocation_pair", int64(o.withEq))
 		vk.Add("period_gt0", int64(o.periodGT0))
 		vk.Add("with_byzantine_voter", int64(o.byzVoter))
+		if c.s.stats.byzCertSplit > 0 {
+			vk.Label("run/byz_cert_split_equivocation")
+		}
 	})
 }
 
@@ -273,4 +277,157 @@ func TestVerif_C03_Paths(t *testing.T) {
 		vk.Add("paths_class_late_payload", int64(o.latePayload))
 		vk.Add("paths_class_pipelined", int64(o.pipelined))
 	})
+}
+
+// TestVerif_C03_EquivocatorCert: scripted construction of a certificate whose quorum is only reached with the weight of
+// two equivocators whose first votes were split (the shape voteTracker.genBundle must render as: plain votes of the
+// non-equivocators + one pair per equivocator, every sender once).
+//
+// 4 honest nodes with one account each (18 % of stake each), Byzantine X1 (16 %) and X2 (12 %). All cert votes are kept
+// in the network; node 0's cert tracker is then fed in this order: its own cert vote for v; X1: v then v'; X2: v' then v;
+// node 1's and node 2's cert votes for v (node 3's never arrives). Weights: 3·18 % + 16 % < 74.1 % <= 3·18 % + 16 % + 12 %,
+// so the threshold is crossed by node 2's vote and only thanks to both equivocators; X1 is heavier, so its pair is packed
+// first. Node 0 holds the block and hands block + certificate to the ledger; c03Observer re-authenticates it.
+// The inequalities are re-checked on the real sortition weights of each population; populations where they do not hold
+// are counted as not applicable.
+func TestVerif_C03_EquivocatorCert(t *testing.T) {
+	vk := vkBegin(t, "C03")
+	vk.Rule("scripted certificate needing two split-first-vote equivocators, 12 populations; cases as in TestVerif_C03_Certificates (one per ensureAction)")
+	for ks := uint64(0); ks < 12; ks++ {
+		note := c03EquivocatorCert(t, vk, ks)
+		if note == "" {
+			vk.Label("eqcert/effective")
+		} else {
+			vk.Label("eqcert/not_applicable")
+			vk.Sample(false, map[string]any{"keySeed": ks, "note": note})
+		}
+	}
+}
+
+func c03EquivocatorCert(t *testing.T, vk *vkCtx, keySeed uint64) string {
+	cfg := engaConfig{Nodes: 4, Accts: []int{1, 1, 1, 1}, Byz: 2, KeySeed: keySeed,
+		Stake: []uint64{1_800_000, 1_800_000, 1_800_000, 1_800_000, 1_600_000, 1_200_000}}
+	var o *c03Observer
+	s := engaNewSimHook(t, cfg, func(s *engaSim) {
+		s.traceOn = true
+		o = &c03Observer{s: s, vk: vk}
+		s.obs = append(s.obs, o)
+	})
+	adv := &engaAdversary{s: s}
+	x1, x2 := s.byz[0], s.byz[1]
+	ent := func() uint64 { return 1 }
+	all := []int{0, 1, 2, 3}
+	// phase A: no cert vote is delivered anywhere; run until every honest node has soft-voted
+	s.hold = func(m *engaMsg) bool { return m.cls == int(cert) }
+	var v proposalValue
+	softDone := func() bool {
+		for k, uvs := range s.votesSeen {
+			if k.r == 1 && k.p == 0 && k.s == soft && len(uvs) == 4 {
+				v = k.v
+				return true
+			}
+		}
+		return false
+	}
+	for i := 0; i < 2000 && !softDone(); i++ {
+		if !s.benignStep(ent()) {
+			break
+		}
+	}
+	if !softDone() {
+		return "honest soft votes split"
+	}
+	s.drain(500)
+	var vOther proposalValue
+	for _, c := range adv.knownValues(1) {
+		if c != v {
+			vOther = c
+			break
+		}
+	}
+	if vOther == (proposalValue{}) {
+		return "no second proposal value known"
+	}
+	// real weights of this population
+	w := map[int]uint64{}
+	for _, id := range s.ids {
+		m, err := membership(s.ref, id.addr, 1, 0, cert)
+		if err != nil {
+			return "membership"
+		}
+		if c, err := committee.MakeCredential(&id.vrf.SK, m.Selector).Verify(engaProto(), m); err == nil {
+			w[id.idx] = c.Weight
+		}
+	}
+	T := engaProto().CertCommitteeThreshold
+	h3 := w[0] + w[1] + w[2]
+	if !(h3+w[4] < T && h3+w[4]+w[5] >= T && w[4] > w[5] && w[5] > 0) {
+		return fmt.Sprintf("weights do not fit: honest3=%d x1=%d x2=%d T=%d", h3, w[4], w[5], T)
+	}
+	// the Byzantine soft votes complete the soft quorum (honest stake is 72 %), honest nodes cert-vote v
+	for _, b := range []*engaIdentity{x1, x2} {
+		if uv, ok := adv.makeVote(b, engaStepKey{1, 0, soft}, v); ok {
+			adv.inject(b, all, protocol.AgreementVoteTag, protocol.Encode(&uv))
+		}
+	}
+	s.drain(2000)
+	if len(s.votesSeen[engaVoteKey{1, 0, cert, v}]) < 4 {
+		return "honest nodes did not all cert-vote v"
+	}
+	if s.nodes[0].committed() >= 1 {
+		return "node 0 committed too early"
+	}
+	// phase B: feed node 0's cert tracker in the prescribed order
+	n0 := s.nodes[0]
+	settle := func() {
+		for n0.localStep() {
+		}
+	}
+	byzVote := func(b *engaIdentity, val proposalValue) bool {
+		uv, ok := adv.makeVote(b, engaStepKey{1, 0, cert}, val)
+		if !ok {
+			return false
+		}
+		adv.inject(b, []int{0}, protocol.AgreementVoteTag, protocol.Encode(&uv))
+		s.hold = nil
+		for k, m := range s.pool {
+			if m.dst == 0 && m.src == -1-b.idx && m.cls == int(cert) {
+				s.deliverMsg(k, false)
+				break
+			}
+		}
+		s.hold = func(m *engaMsg) bool { return m.cls == int(cert) }
+		settle()
+		return true
+	}
+	honestVote := func(from int) bool {
+		s.hold = nil
+		defer func() { s.hold = func(m *engaMsg) bool { return m.cls == int(cert) } }()
+		for k, m := range s.pool {
+			if m.dst == 0 && m.src == from && m.cls == int(cert) {
+				if uv, ok := engaVoteOf(m); ok && uv.R.Sender == s.nodes[from].ids[0].addr {
+					s.deliverMsg(k, false)
+					settle()
+					return true
+				}
+			}
+		}
+		return false
+	}
+	if !(byzVote(x1, v) && byzVote(x1, vOther) && byzVote(x2, vOther) && byzVote(x2, v)) {
+		return "Byzantine cert votes could not be made"
+	}
+	before := o.checked
+	if !honestVote(1) || !honestVote(2) {
+		return "honest cert votes not found in the network"
+	}
+	if o.checked == before {
+		return "threshold not crossed at node 0"
+	}
+	en := s.ensures[len(s.ensures)-1]
+	if len(en.Cert.EquivocationVotes) == 0 {
+		return "certificate without equivocation pair"
+	}
+	vk.Labelf("eqcert/pairs=%d", len(en.Cert.EquivocationVotes))
+	return ""
 }
